@@ -780,7 +780,7 @@ func ForwardedFieldStore(ld *ssa.UnOp, fa *ssa.FieldAddr) ssa.Value {
 				return nil
 			}
 		case *ssa.Call:
-			if !InfoOf(&x.Call).Builtin {
+			if !InfoOf(&x.Call).Builtin && !writesNoCallerState(&x.Call) {
 				return nil
 			}
 		case *ssa.Go, *ssa.Defer, *ssa.RunDefers:
@@ -788,6 +788,20 @@ func ForwardedFieldStore(ld *ssa.UnOp, fa *ssa.FieldAddr) ssa.Value {
 		}
 	}
 	return nil
+}
+
+// writesNoCallerState: calls that cannot store into the caller's objects: a
+// context.CancelFunc (it comes from the context package and only touches the
+// context it belongs to), and the mutex operations of package sync.
+func writesNoCallerState(cc *ssa.CallCommon) bool {
+	if !cc.IsInvoke() && cc.StaticCallee() == nil && TypeStr(cc.Value.Type()) == "context.CancelFunc" {
+		return true
+	}
+	ci := InfoOf(cc)
+	if ci.Pkg == "sync" && (ci.Name == "Lock" || ci.Name == "Unlock" || ci.Name == "RLock" || ci.Name == "RUnlock") {
+		return true
+	}
+	return false
 }
 
 // canonBase resolves a pointer value that was just loaded from a field into
